@@ -257,6 +257,12 @@ func genLeaf(r *RNG, t *TypeSpec, rs *ResSpec) FSpec {
 	ids := genToMany(r, 4)
 	if rs != nil && r.Bool() {
 		ids = shuffleStrings(r, rs.ToMany[rl.Name])
+		if len(ids) >= 2 && r.Chance(1, 4) {
+			// same length, one ID repeated in place of another: every filter ID is among the resource's, yet the
+			// lists are not equal (whether read as sets or as multisets)
+			ids = append([]string{}, ids...)
+			ids[r.Intn(len(ids)-1)+1] = ids[0]
+		}
 	}
 	switch r.Intn(4) {
 	case 0:
